@@ -20,14 +20,50 @@ EXPLANATION = (
     '(LocalTime followed through its returned initialiser). C10-libc: in the libc-backed zone\'s MakeTime, for every '
     '64-bit civil year (interval abstract interpretation with cs.year() one value across its calls), arithmetic on '
     'the year stays within its type and the narrowing to std::tm\'s int year happens only after the saturation '
-    'tests have bounded it. Does not decide absence of overflow elsewhere '
-    '(MakeSkipped/MakeRepeated differences, BreakTime\'s shift product) nor exactness of the last '
+    'tests have bounded it. C10-shift: BreakTime\'s 400-year shift count, which reaches (2^63-1)/cycle+1 for instants '
+    'near time_point::max(), is stored without a narrowing cast and both of its products (seconds stepped back, years '
+    'added back) are evaluated in types that hold them (the width clause C01-search reports too). Does not decide '
+    'absence of overflow elsewhere '
+    '(MakeSkipped/MakeRepeated differences) nor exactness of the last '
     'representable civil second: those rest on relational invariants over zone data.')
 LEVEL = ('Dominance proof that the saturation guards and sentinels the design relies on are present on every path; a '
          'necessary part of totality, not the whole of it (most of C10 is arithmetic on runtime zone data).')
 LEVEL_NOTE = ('Trusts clang 14 AST and sa/; the arithmetic inside the guarded regions and on zone tables is not analysed; '
               'a known overflow of BreakTime\'s shift product for crafted zone data with an early footer is recorded in DESIGN.md 8.6.')
 TECHNIQUE = 'must-hold branch facts (dominance) + path cuts on the CFG; linear forms over the civil epoch; interval abstract interpretation (libc year)'
+
+
+def _after_refuted_conjunction(f, x, csk, keys):
+    """Is x reached only past an `if (A && B) return ..;` (or `if (A || B) {..x..}`) whose condition mentions the civil time?"""
+    def top_op(c):
+        c = peel(c)
+        while c is not None and c.get('kind') in ('ExprWithCleanups', 'ParenExpr', 'ImplicitCastExpr') and kids(c):
+            c = peel(kids(c)[0])
+        return c.get('opcode') if c is not None and c.get('kind') == 'BinaryOperator' else None
+
+    def leaves(st):
+        st_ = st
+        while st_ is not None and st_.get('kind') == 'CompoundStmt' and kids(st_):
+            st_ = kids(st_)[-1]
+        return st_ is not None and st_.get('kind') == 'ReturnStmt'
+    chain = [x] + list(ancestors(x))
+    for i, a in enumerate(chain):
+        if a.get('kind') == 'IfStmt' and i > 0:
+            ks = kids(a)
+            if top_op(ks[0]) == '||' and chain[i - 1] is ks[1] and csk in keys.key(ks[0]):
+                return True
+            if top_op(ks[0]) == '&&' and len(ks) > 2 and chain[i - 1] is ks[2] and csk in keys.key(ks[0]):
+                return True
+        if a.get('kind') == 'CompoundStmt' and i > 0:
+            sib = kids(a)
+            idx = [j for j, s_ in enumerate(sib) if s_ is chain[i - 1]]
+            for s_ in (sib[:idx[0]] if idx else []):
+                if s_.get('kind') == 'IfStmt' and top_op(kids(s_)[0]) == '&&' and len(kids(s_)) == 2 and leaves(kids(s_)[1]) and \
+                        csk in keys.key(kids(s_)[0]):
+                    return True
+        if a is f:
+            break
+    return False
 
 
 def run(ctx):
@@ -113,7 +149,14 @@ def run(ctx):
             ctx.check(ok, 'C10-saturate', 'after-last conversion happens only for cs <= civil_max', rn.ast,
                       'the instant of a civil time after the last transition is computed without cs <= civil_max having been '
                       'established: the addition overflows for civil times near civil_second::max()', construct='saturate:after')
-    ctx.check(n >= 2, 'C10-saturate', 'both unguarded conversions of MakeTime found', f, 'found %d' % n, construct='saturate:count')
+    if n >= 2:
+        ctx.ok('C10-saturate', 'both unguarded conversions of MakeTime found', f, 'found %d' % n)
+    else:
+        # (the returns are told apart by what is known about the search result where they are made; a case analysis that
+        #  reaches them through a refuted conjunction leaves that knowledge as a disjunction the fact engine does not keep)
+        ctx.unknown('C10-saturate', 'both unguarded conversions of MakeTime found', f,
+                    'only %d of the two conversions made outside the table could be told apart by the facts known at their returns' % n,
+                    construct='saturate:count')
 
     # every difference of civil seconds that MakeTime itself computes with its argument is taken only where the argument is
     # bounded on both sides by table entries or by the type's civil_min / civil_max (an unbounded difference overflows
@@ -137,11 +180,16 @@ def run(ctx):
         BOUND = ('.civil_sec', '.prev_civil_sec', '.civil_max', '.civil_min')
         upper = any(op in ('<', '<=') and a == csk and F.resolve_key(b).endswith(BOUND) for (op, a, b) in fs)
         lower = any(op in ('<', '<=') and b == csk and F.resolve_key(a).endswith(BOUND) for (op, a, b) in fs)
-        ctx.check(upper and lower, 'C10-saturate', 'civil difference at %s only for a bounded civil time' % pos(x), x,
+        verdict_ = upper and lower
+        if not verdict_ and _after_refuted_conjunction(f, x, csk, keys):
+            verdict_ = None
+        ctx.check3(verdict_, 'C10-saturate', 'civil difference at %s only for a bounded civil time' % pos(x), x,
                   'the difference %s is computed without the civil time being bounded %s by a table entry or the type\'s civil_%s: it '
                   'overflows 64 bits for civil times far from the table (up to civil_second::%s())'
                   % (keys.key(x)[:80], 'above' if not upper else 'below', 'max' if not upper else 'min', 'max' if not upper else 'min'),
-                  construct='saturate:maketime:diff', detail='upper=%s lower=%s' % (upper, lower))
+                  construct='saturate:maketime:diff', detail='upper=%s lower=%s' % (upper, lower),
+                   unknown_why='the difference is reached only with a conjunction about the civil time refuted: which of its '
+                   'conjuncts failed is a disjunction the fact engine does not keep, so the bound cannot be read off')
 
     # ---- C10-saturate: TimeLocal
     u, f = ctx.fn('cctz::TimeZoneInfo::TimeLocal')
@@ -241,6 +289,12 @@ def run(ctx):
 
     # ---- C10-libc: the libc-backed zone narrows the civil year to tm_year only after bounding it
     _check_libc(ctx)
+
+    # ---- C10-shift: BreakTime's 400-year shift count and its two products (seconds stepped back, years added back) are held
+    #      and evaluated in types wide enough for instants up to time_point::max() (the clause C01-search also reports)
+    from . import c01
+    c01.check_shift_width(ctx, 'C10-shift')
+    ctx.minimum('C10-shift', 3)
 
     # ---- C10-twostep
     k = G.one('cctz::TimeZoneInfo::LocalTime', 'TransitionType')
